@@ -23,10 +23,12 @@ CLAIMS = {
              "every file of the list is processed exactly once; the stdin spool file is removed on every exit; failures collected before a fault "
              "are reported exactly once; in fix mode no temporary file of a pass survives it on any exit (D2 fixed), a pass cut short by a "
              "failing rule or by the parser has not written the user's file, and an undecodable document surfaces as an error because the "
-             "document is opened as strict utf-8 (errors= / newline= must not be given).",
+             "document is opened as strict utf-8 (errors= / newline= must not be given) and a read / decode failure never escapes the per-file "
+             "handler: it is reported with the file's name and counts as that file's failure (D26 fixed).",
         note=TB + "Known finding D8 (a later fix level failing after an earlier level was copied back). NOT covered: the token pass of fix "
                   "mode below __process_file_fix_tokens (assumed contract: parser + rules + regenerator), the crash-point clause (a "
-                  "sequential contract cannot express a process dying mid-copy; copy-back is shutil.copyfile, D9), 'the message names the file'."),
+                  "sequential contract cannot express a process dying mid-copy; copy-back is shutil.copyfile, D9); that the text of a message names "
+                  "the file is read off the formatter (MainPresentation.format_scan_error), not proved."),
 }
 
 CLAIMS["C14"] = dict(
